@@ -30,8 +30,12 @@ func initStdio() {
 	os.Stdin = devNull
 	// Standard files of the machines are /dev/null: no 64 KiB buffer each.
 	iolib.BufferedStdFiles = false
-	// Thousands of short-lived runtimes per second: collect less often.
-	debug.SetGCPercent(400)
+	// (a larger GC percentage is slower here: fresh pages cost more than collections)
+	gc := 100
+	if v := os.Getenv("C08_GC"); v != "" {
+		fmt.Sscan(v, &gc)
+	}
+	debug.SetGCPercent(gc)
 }
 
 // declared flags and internal name of a Go function: golua keeps them in
@@ -63,9 +67,9 @@ type machine struct {
 	ok      bool       // first value given to res
 	results []rt.Value // the rest
 
-	cbFn rt.Value
-	body rt.Value
-	wrap rt.Value // Lua spelling of the context entry
+	cbFn    rt.Value
+	body    rt.Value
+	callctx rt.Value // runtime.callcontext
 }
 
 const bodySrc = `
@@ -91,14 +95,6 @@ local function body(sp, f, tgt, w1, ...)
 end
 local function cb(...) rec("cb") end
 return body, cb
-`
-
-const wrapSrc = `
-local callcontext, tostring, body, flags = ...
-return function(...)
-  local ctx = callcontext({flags = flags}, body, ...)
-  return tostring(ctx)
-end
 `
 
 // newMachine builds a fresh runtime whose standard files are /dev/null (the
@@ -181,7 +177,7 @@ func (mc *machine) loadChunk(name, src string) *rt.Closure {
 // they must be callable under every flag subset.
 var harnessHelpers = []string{"pcall", "coroutine.wrap", "load", "runtime.context", "tostring", "next", "getmetatable", "rawequal", "runtime.callcontext"}
 
-// prepare compiles the body and the Lua context-entry wrapper.
+// prepare loads the body into the machine.
 func (mc *machine) prepare(required rt.ComplianceFlags) {
 	rec := rt.NewGoFunction(func(t *rt.Thread, c *rt.GoCont) (rt.Cont, error) {
 		etc := c.Etc()
@@ -217,11 +213,7 @@ func (mc *machine) prepare(required rt.ComplianceFlags) {
 	must(err)
 	mc.body, mc.cbFn = out[0], out[1]
 
-	clos = mc.loadChunk("c08wrap", wrapSrc)
-	out, err = mc.hostCallN(rt.FunctionValue(clos), mc.global("runtime.callcontext"), mc.global("tostring"), mc.body,
-		rt.StringValue(strings.Join(required.Names(), " ")))
-	must(err)
-	mc.wrap = out[0]
+	mc.callctx = mc.global("runtime.callcontext")
 }
 
 // enter runs body(args...) in a context requiring the flags, entered the Go
@@ -238,12 +230,23 @@ func (mc *machine) enter(luaSpelling bool, required rt.ComplianceFlags, args []r
 	}()
 	t := mc.r.MainThread()
 	if luaSpelling {
+		// runtime.callcontext({flags = "..."}, body, args...)
+		def := rt.NewTable()
+		def.Set(rt.StringValue("flags"), rt.StringValue(strings.Join(required.Names(), " ")))
 		term := rt.NewTerminationWith(nil, 1, false)
-		if err := rt.Call(t, mc.wrap, args, term); err != nil {
-			return "wrapper-error: " + err.Error(), ""
+		cargs := append([]rt.Value{rt.TableValue(def), mc.body}, args...)
+		if err := rt.Call(t, mc.callctx, cargs, term); err != nil {
+			return "callcontext-error: " + err.Error(), ""
 		}
-		s, _ := term.Get(0).TryString()
-		return s, ""
+		u, ok := term.Get(0).TryUserData()
+		if !ok {
+			return "callcontext-returned-no-context", ""
+		}
+		ctx, ok := u.Value().(rt.RuntimeContext)
+		if !ok {
+			return "callcontext-returned-no-context", ""
+		}
+		return ctx.Status().String(), ""
 	}
 	ctx, _ := t.CallContext(rt.RuntimeContextDef{RequiredFlags: required}, func() error {
 		return rt.Call(t, mc.body, args, rt.NewTerminationWith(nil, 0, false))
